@@ -127,6 +127,18 @@ func replay(path string) {
 		case "val":
 			js := ts.next() == "1"
 			valCase(env, ts.value(), js, js, "replay")
+		case "hist":
+			n := int(ts.num())
+			var ops []hop
+			for i := 0; i < n; i++ {
+				if ts.next() == "D" {
+					ops = append(ops, hop{del: true, k: ts.value()})
+				} else {
+					k := ts.value()
+					ops = append(ops, hop{k: k, v: ts.value()})
+				}
+			}
+			histCase(env, ops, "replay")
 		case "lit":
 			litCase(env, ts.str(), true, &skipped, "replay")
 		case "qs":
